@@ -63,11 +63,18 @@ def stepOp (s : State) (c : OpCall) : State × Resp :=
 inductive AnyCall
   | core (c : Call)
   | op (c : OpCall)
+  | restart                 -- the process ends (with or without C_Finalize) and a new one continues on the same token directory
   deriving Repr, Inhabited
+
+/-- a new process: what survives is what is on disk: tokens (PINs, labels) and token objects; nobody is logged in, the library
+    is not initialised -/
+def stepRestart (s : State) : State × Resp :=
+  ({ (stepFinalize { s with initialised := true }).1 with initialised := false }, { rv := CKR.OK })
 
 def stepAny (s : State) : AnyCall → State × Resp
   | .core c => step s c
   | .op c => stepOp s c
+  | .restart => stepRestart s
 
 def runAny (s : State) (cs : List AnyCall) : State := cs.foldl (fun s c => (stepAny s c).1) s
 
